@@ -85,6 +85,14 @@ def schedules(fam):
                       [opn("c1"), sub("c1", "a"), Q, ev("a", "change", k="x", val=R("d"), **st), dict(reply("get", "d"), **st),
                        ev("d", "custom", **st), ev("d", "change", k="w", val=P("5"), **st), dict(reply("get", "e"), **st), Q, ev("d", "custom"), Q]))
     if fam == "stream":
+        # one change event brings a new reference (the resource has to be loaded first) together with a soft reference and
+        # a data value: a legacy client must get the legacy encoding of those on this path too
+        for ver in ("1.2.0", "latest"):
+            out.append(SC(fam, "changemixed-" + ver, {"a": Mo(x=P("1")), "d": Mo(w=P("0"))},
+                          [opn("c1", ver), sub("c1", "a"), Q,
+                           dict(ev("a", "change", k="x", val=R("d"), more={"s": {"t": "s", "v": "d"}, "dv": {"t": "d", "v": '{"k":1}'}}), settle=True),
+                           dict(reply("get", "d"), settle=True), Q, ev("a", "custom"), Q]))
+    if fam == "stream":
         st = dict(settle=True)
         rr = lambda **kw: dict({"op": "reset", "res": ["a"], "acc": []}, **kw)
         res2 = {"a": Mo(x=P("1")), "b": Mo(y=P("1"))}
